@@ -153,6 +153,10 @@ func scC15End(w *World, a Args, rng *rand.Rand) error {
 		go A.CallT("notify", 91, 300*time.Millisecond)
 		gated = w.Rec.WaitParked("rd.msg.pre@server", time.Second)
 	}
+	if a.Bool("emptyframe") {
+		pc.InjectEmptyToServer() // a peer may send an empty message; the server goes on reading afterwards
+		time.Sleep(5 * time.Millisecond)
+	}
 	if a.Bool("partial") {
 		// the server has the beginning of a frame in hand (its reader is inside the frame body) when the end comes
 		pc.AddRule(&Rule{Dir: C2S, Frame: 0, Pos: "cut-payload", Style: "hole"})
